@@ -35,6 +35,9 @@ def run(ctx: Ctx):
     from .common import float64_extractors
 
     float64_extractors(ctx)
+    from .common import public_values_assembled
+
+    public_values_assembled(ctx, "public-assembled", "_Slice", ("zscores", "pvals", "residual_test_stats"))
 
 
 def formula(ctx: Ctx):
